@@ -31,7 +31,12 @@ MANIFEST = {
              "a hard-coded filter-header checkpoint at any height of the file, an already cancelled context, "
              "file-level damage (wrong network magic in one or "
              "both files, truncated mid-header, no headers, fewer filter headers, different start heights), and an injected "
-             "error or a crash before/after every store call of writeHeadersToTargetStores. EVERY path of that graph is "
+             "error or a crash before/after every store call of writeHeadersToTargetStores; and, as a second, small "
+             "configuration space, a testnet-like chain-parameter set (ReduceMinDifficulty, no retarget inside the universe): "
+             "store chain with hard difficulty bits, file starting at height >= 1 that contains 1-2 late minimum-difficulty "
+             "blocks followed by an on-time block which must return to the difficulty of the last ancestor that is not a "
+             "minimum-difficulty block - an ancestor on the other side of the store/file boundary when that block is the "
+             "first or second header of the file - and either does (valid) or wrongly stays at the limit bits. EVERY path of that graph is "
              "replayed against the real code: real headerfs stores on disk, real files written with "
              "AddHeadersImportMetadata, block headers mined for a regtest-like chain (independent ground truth: btcd's "
              "header rules over the full ancestor slice), the public NewHeadersImport(...).Import, faults injected by "
@@ -39,8 +44,8 @@ MANIFEST = {
              "(after a crash) reopening, TLC evaluates the clauses of ImportProps.tla on what the stores answer.",
         note="Bounded (quick: start<=2, len<=4, batch<=3, store heights<=3, one deviation at a time; thorough: start<=4, "
              "len<=6, batch<=4, store heights<=5, two deviations). Trusts TLC, the projection of the read API to ids, the "
-             "ground-truth oracle for header validity (btcd's rules over the full ancestor slice, regtest-like chain without "
-             "retargeting). The divergence-region code (one store ahead and the file extends past the shorter one) is "
+             "ground-truth oracle for header validity (btcd's rules over the full ancestor slice; regtest-like chain without "
+             "retargeting, and a testnet-like one with the minimum-difficulty exception but no retarget inside the universe). The divergence-region code (one store ahead and the file extends past the shorter one) is "
              "unreachable with real headerfs stores (the continuity check compares the connecting header with the block TIP) "
              "and is therefore modelled but never replayed. Also carries the import crash points of C08 as clauses "
              "ImportCrash* (crash before / after / inside every store call of the import: torn file write, between file and "
@@ -60,16 +65,30 @@ PROPS = {
 
 CODE_VERSION = json.load(open(os.path.join(SPEC, "code_version.json")))
 
+# Each tier: the regtest-like configuration space (Testnet=False) and, as a separate small TLC run, the
+# testnet-like one (Testnet=True: ReduceMinDifficulty rules, hard-bits store chain, 1..MaxLate late
+# minimum-difficulty blocks followed by an on-time block inside the file that is valid or wrongly "easybits";
+# start height >= 1, no other deviation, no fault).  The paths of both graphs are replayed and judged together.
 CONFIGS = {
-    ("C14", "quick"): dict(MaxStart=2, MaxLen=4, MaxBatch=3, MaxStoreH=3, MaxH=5, MaxAnom=1, MaxFaults=2,
-                           WithCrash=True),
-    ("C14", "thorough"): dict(MaxStart=4, MaxLen=6, MaxBatch=4, MaxStoreH=5, MaxH=8, MaxAnom=2, MaxFaults=2,
-                              WithCrash=True),
+    ("C14", "quick"): [
+        dict(MaxStart=2, MaxLen=4, MaxBatch=3, MaxStoreH=3, MaxH=5, MaxAnom=1, MaxFaults=2, WithCrash=True,
+             Testnet=False, MaxLate=0),
+        dict(MaxStart=2, MaxLen=4, MaxBatch=3, MaxStoreH=3, MaxH=5, MaxAnom=1, MaxFaults=0, WithCrash=False,
+             Testnet=True, MaxLate=2),
+    ],
+    ("C14", "thorough"): [
+        dict(MaxStart=4, MaxLen=6, MaxBatch=4, MaxStoreH=5, MaxH=8, MaxAnom=2, MaxFaults=2, WithCrash=True,
+             Testnet=False, MaxLate=0),
+        dict(MaxStart=4, MaxLen=6, MaxBatch=4, MaxStoreH=5, MaxH=8, MaxAnom=1, MaxFaults=0, WithCrash=False,
+             Testnet=True, MaxLate=3),
+    ],
 }
 
 ASSUMPTIONS = [
     "header validity ground truth = btcd CheckBlockHeaderSanity/Context over the complete ancestor slice plus the "
-    "PrevBlock link, for a regtest-like chain (no retargeting); each invalid kind breaks exactly one rule",
+    "PrevBlock link, for a regtest-like chain (no retargeting) and for a testnet-like chain (ReduceMinDifficulty; the "
+    "retarget interval of 2016 blocks is never reached); each invalid kind breaks exactly one rule; the generator's own "
+    "statement of the difficulty rule is cross-checked against btcd for every header it builds",
     "filter headers cannot be validated by an import (no filters): 'validated' for them means 'is the file's entry of "
     "that height'",
     "store errors are injected at the BlockHeaderStore / FilterHeaderStore interface (the call returns an error and "
@@ -98,6 +117,8 @@ def label(act):
             dev += "+cancelled"
         if c.get("rsrc", "none") != "none":
             dev += "+read%s@%d(%s)" % (c["rsrc"], c.get("rk", -1), c.get("rkind"))
+        if c.get("lt", -1) >= 0:
+            dev += "+testnet:late@%d" % c["lt"] + ("x%d" % c["ln"] if c.get("ln", 1) != 1 else "")
         return "Begin(s=%d,n=%d,bs=%d,B=%d,F=%d,%s)" % (c.get("s", -1), c.get("n", -1), c.get("bs", -1),
                                                        c.get("hB", -1), c.get("hF", -1), dev)
     s = op
@@ -146,23 +167,45 @@ class LeanGraph(core.Graph):
         return g
 
 
-def write_chunks(g, paths, sc, chunk):
-    """Writes the paths (global ids) into files of at most `chunk` paths."""
-    init_obs = {n: o for n, o in g.inits}
-    files, f = [], None
-    for i, p in enumerate(paths):
-        if i % chunk == 0:
-            if f:
-                f.close()
-            files.append(os.path.join(sc, "paths-%d.ndjson" % len(files)))
-            f = open(files[-1], "w")
-        start = g.edges[p[0]][0]
-        steps = ",".join('{"act":%s,"obs":%s,"viol":%s}' % (g.edges[e][1], g.edges[e][3], json.dumps(list(g.edges[e][4])))
-                         for e in p)
-        f.write('{"id":%d,"init_obs":%s,"steps":[%s]}\n' % (i, init_obs.get(start, "null"), steps))
+def write_chunks(graphs, sc, chunk):
+    """Writes the paths of all (graph, paths) pairs, numbered consecutively, into files of at most `chunk`
+    paths."""
+    files, f, i = [], None, 0
+    for g, paths in graphs:
+        init_obs = {n: o for n, o in g.inits}
+        for p in paths:
+            if i % chunk == 0:
+                if f:
+                    f.close()
+                files.append(os.path.join(sc, "paths-%d.ndjson" % len(files)))
+                f = open(files[-1], "w")
+            start = g.edges[p[0]][0]
+            steps = ",".join('{"act":%s,"obs":%s,"viol":%s}' % (g.edges[e][1], g.edges[e][3],
+                                                              json.dumps(list(g.edges[e][4]))) for e in p)
+            f.write('{"id":%d,"init_obs":%s,"steps":[%s]}\n' % (i, init_obs.get(start, "null"), steps))
+            i += 1
     if f:
         f.close()
     return files
+
+
+class _Merged:
+    """What family.finish reads from a TLC run and a graph, summed over the configuration spaces."""
+    def __init__(self):
+        self.generated = self.distinct = self.depth = self.n_inits = 0
+        self.wall = 0.0
+        self.edges = []
+        self.ops = {}
+
+    def add(self, tlc, g):
+        self.generated += tlc.generated
+        self.distinct += tlc.distinct
+        self.depth = max(self.depth, tlc.depth)
+        self.wall += tlc.wall
+        self.n_inits += getattr(tlc, "n_inits", 0) or len(g.inits)
+        self.edges.extend((0, 0, 0, 0, e[4]) for e in g.edges)     # finish() counts them and their viol sets
+        for k, v in g.ops.items():
+            self.ops[k] = self.ops.get(k, 0) + v
 
 
 CHUNK = 20000   # paths per driver run / ObsCheck run (bounds the memory of the check, not its coverage)
@@ -171,36 +214,58 @@ CHUNK = 20000   # paths per driver run / ObsCheck run (bounds the memory of the 
 def run(prop_id, tier, seed, replay=None):
     t0 = time.time()
     rng = random.Random(seed)
-    consts = dict(CONFIGS[(prop_id, tier)])
-    consts.update(CODE_VERSION)
+    spaces = [dict(c, **CODE_VERSION) for c in CONFIGS[(prop_id, tier)]]
+    consts = spaces[0]
     sc = core.scratch("imp")
     # the JVMs of this check (TLC, ObsCheck per chunk) need < 2 GB; without a cap they grow to a quarter of the
     # machine's memory, next to the other checks
     os.environ.setdefault("_JAVA_OPTIONS", "-Xmx3g")
+    phases = {"model_and_cover_s": 0.0, "build_s": 0.0, "replay_s": 0.0, "judge_s": 0.0}
     try:
         if replay:
             pf = os.path.join(sc, "paths.ndjson")
             family.paths_from_replay(replay, pf)
             tlc, g, paths, unreach, files = family._NoTLC(), None, [0], 0, [pf]
         else:
-            tlc = core.run_tlc([SPEC], "Import", consts, workers=1, invariants=["TypeOK"],
-                               workdir=os.path.join(sc, "tlc"), timeout=3000, heap="3g")
-            if not tlc.ok:
-                raise core.MachineryError("TLC on Import failed: %s\n%s" % (tlc.error, tlc.stdout_tail[-3000:]))
-            g = LeanGraph.load(tlc)
-            paths, unreach = core.edge_cover(g, rng)
-            files = write_chunks(g, paths, sc, CHUNK)
-            shutil.rmtree(os.path.join(sc, "tlc"), ignore_errors=True)
+            merged, graphs, paths, unreach, per_space = _Merged(), [], [], 0, []
+            for k, cs in enumerate(spaces):
+                t1 = time.time()
+                tlc = core.run_tlc([SPEC], "Import", cs, workers=1, invariants=["TypeOK"],
+                                   workdir=os.path.join(sc, "tlc"), timeout=3000, heap="3g")
+                if not tlc.ok:
+                    raise core.MachineryError("TLC on Import (%s) failed: %s\n%s" % (
+                        "testnet-like" if cs["Testnet"] else "regtest-like", tlc.error, tlc.stdout_tail[-3000:]))
+                gk = LeanGraph.load(tlc)
+                shutil.rmtree(os.path.join(sc, "tlc"), ignore_errors=True)
+                pk, un = core.edge_cover(gk, rng)
+                unreach += un
+                graphs.append((gk, pk))
+                paths += pk
+                merged.add(tlc, gk)
+                per_space.append({"rules": "testnet-like" if cs["Testnet"] else "regtest-like",
+                                  "configurations": len(gk.inits), "states": tlc.distinct, "edges": len(gk.edges),
+                                  "paths": len(pk), "tlc_wall_s": round(tlc.wall, 1),
+                                  "model_and_cover_wall_s": round(time.time() - t1, 1)})
+            files = write_chunks(graphs, sc, CHUNK)
+            del graphs
+            tlc = g = merged
+            phases["model_and_cover_s"] = round(time.time() - t0, 1)
+        t1 = time.time()
         binary = family.build_overlay_test(PKG, [DRIVER], os.path.join(sc, "chainimport.test"),
                                            extra_overlay={HOOK_AT: HOOK, CKHOOK_AT: CKHOOK})
+        phases["build_s"] = round(time.time() - t1, 1)
         verdict = {"violations": [], "known": {}, "n_lines": 0, "wall": 0.0, "raw": 0}
         dr = [0, 0, []]
         slim = []      # what finish() needs of the observed traces, without their observations
         for k, pf in enumerate(files):
             of = os.path.join(sc, "obs-%d.ndjson" % k)
+            t1 = time.time()
             observed, log = family.run_driver(binary, "TestVerifImportReplay", pf, of, sc,
                                               env_extra={"VERIF_SEED": str(seed)})
+            phases["replay_s"] = round(phases["replay_s"] + time.time() - t1, 1)
+            t1 = time.time()
             v = family.judge([SPEC], "ImportProps", PROPS[prop_id], prop_id, observed, label=label)
+            phases["judge_s"] = round(phases["judge_s"] + time.time() - t1, 1)
             verdict["violations"] += v["violations"]
             for kid, kv in v["known"].items():
                 if kid in verdict["known"]:
@@ -221,7 +286,9 @@ def run(prop_id, tier, seed, replay=None):
             del observed
             os.remove(of)
             os.remove(pf)
-        extra = {"config": consts, "edges_only_reachable_through_model_violation": unreach,
+        extra = {"config": consts, "config_testnet_like": spaces[1] if len(spaces) > 1 else None,
+                 "configuration_spaces": None if replay else per_space, "phases": phases,
+                 "edges_only_reachable_through_model_violation": unreach,
                  "configurations": tlc.n_inits if hasattr(tlc, "n_inits") else 0,
                  "replay_chunks": len(files),
                  "check_process_maxrss_mb": resource.getrusage(resource.RUSAGE_SELF).ru_maxrss // 1024,
